@@ -311,7 +311,7 @@ class RelativeSequence(AbstractSequence):
         if factor == 1:
             return
         if factor > 1:
-            for msg in self._messages:
+            for msg in self._distinct_messages():
                 if msg.message_type == MessageType.WAIT:
                     msg.time = msg.time * factor
         # Handle special case, have to consider time signatures
@@ -382,7 +382,7 @@ class RelativeSequence(AbstractSequence):
         """
         had_to_shift = False
 
-        for msg in self._messages:
+        for msg in self._distinct_messages():
             if msg.message_type == MessageType.NOTE_ON or msg.message_type == MessageType.NOTE_OFF:
                 msg.note += transpose_by
                 while msg.note < NOTE_LOWER_BOUND:
@@ -397,6 +397,18 @@ class RelativeSequence(AbstractSequence):
         return had_to_shift
 
     # Misc. Methods
+
+    def _distinct_messages(self):
+        """Yields every message object of this sequence once. The same object can occur several times (e.g. after
+        concatenating a sequence with itself), operations that modify messages in place must not apply twice to it.
+
+        """
+        seen = set()
+
+        for msg in self._messages:
+            if id(msg) not in seen:
+                seen.add(id(msg))
+                yield msg
 
     def is_empty(self) -> bool:
         """Checks if the sequence is empty, i.e., no notes are opened.
